@@ -480,15 +480,12 @@ fn parse_entry(entry: &str, bytes: &[u8]) -> (String, Option<Dump>, String) {
             match r {
                 Ok(f) => {
                     let mut clean = true;
-                    let meta = opt(&f.meta, &mut clean);
-                    let table: Vec<String> = f.anim_clip_table.iter().enumerate().filter(|(_, s)| s.is_some()).map(|(i, s)| format!("{}:{}", i, opt(s, &mut clean))).collect();
-                    let mut sets = Vec::new();
-                    for s in &f.sets {
-                        let items: Vec<String> = s.iter().enumerate().filter(|(_, x)| x.is_some()).map(|(i, x)| format!("{}:{}", i, opt(x, &mut clean))).collect();
-                        sets.push(format!("{}({})", s.len(), items.join(",")));
+                    let _ = opt(&f.meta, &mut clean);
+                    for x in f.anim_clip_table.iter().chain(f.sets.iter().flatten()) {
+                        let _ = opt(x, &mut clean);
                     }
                     let rs = reser(&mut || f.serialize().is_ok());
-                    let text = format!("meta={} table={}[{}] sets=[{}]", meta, f.anim_clip_table.len(), table.join(","), sets.join(";"));
+                    let text = crate::fam::aset::show_file(&f);
                     let coarse = format!("nsets={}", f.sets.len());
                     (c, Some(Dump { clean, text, coarse }), rs)
                 }
@@ -501,25 +498,8 @@ fn parse_entry(entry: &str, bytes: &[u8]) -> (String, Option<Dump>, String) {
             match r {
                 Ok(b) => {
                     let mut clean = true;
-                    let mut specs = Vec::new();
                     for s in &b.specs {
-                        // coarse per-spec fingerprint: name, a few strings, typed presence flags and values
-                        specs.push(format!(
-                            "{}/{}/{}/{}{}{}{}{}{}/{:08x}/{:08x}/{}",
-                            opt(&s.name, &mut clean),
-                            opt(&s.body_model, &mut clean),
-                            opt(&s.voice, &mut clean),
-                            s.use_hair_color as u8,
-                            s.use_skin_color as u8,
-                            s.use_model_size as u8,
-                            s.use_unk3 as u8,
-                            s.use_bitflags as u8,
-                            s.use_unk13 as u8,
-                            s.model_size.to_bits(),
-                            s.unk13,
-                            hex(&s.hair_color)
-                        ));
-                        for f in crate::fam::parsers::all_strings(s) {
+                        for f in all_strings(s) {
                             if let Some(x) = f {
                                 if !in_sub_alphabet(x) {
                                     clean = false;
@@ -528,7 +508,7 @@ fn parse_entry(entry: &str, bytes: &[u8]) -> (String, Option<Dump>, String) {
                         }
                     }
                     let rs = reser(&mut || b.serialize().is_ok());
-                    let text = format!("flags={} specs=[{}]", b.flags, specs.join(";"));
+                    let text = crate::fam::asset::show_binary(&b);
                     let coarse = format!("flags={} nspecs={}", b.flags, b.specs.len());
                     (c, Some(Dump { clean, text, coarse }), rs)
                 }
